@@ -37,7 +37,7 @@ META = dict(
         "only when the reference denominator exceeds 1e-6",
     ],
     # C08_THOROUGH_BUDGET: development knob only (shorter trial runs of the thorough tier)
-    BUDGET={"quick": 50.0, "thorough": float(os.environ.get("C08_THOROUGH_BUDGET", 840.0))},
+    BUDGET={"quick": 45.0, "thorough": float(os.environ.get("C08_THOROUGH_BUDGET", 840.0))},
     EXTRA_VARIANTS=["tsan"],
     CASE_TIMEOUT={"quick": 400, "thorough": 900},
     MIN_CASES={"quick": 100, "thorough": 5000},
